@@ -1,7 +1,9 @@
 //! `simcheck check <property> [quick|thorough] [--replay FILE]`
 //! exit 0: property held on everything explored; 1: VIOLATION printed; 2: harness error.
 
+use simv::cases::c17plan::C17Plan;
 use simv::cases::hexcase::HexPlan;
+use simv::cases::newplans::{C12Plan, C18Plan};
 use simv::exec::Ctx;
 use simv::framework::{replay, run_check, Plan};
 use std::path::PathBuf;
@@ -48,6 +50,12 @@ fn main() {
     } else {
         let quick = tier == "quick";
         let (plan, level): (Box<dyn Plan>, &str) = match property.as_str() {
+            "C12" => (Box::new(C12Plan { seed, seeded: if quick { 2_500 } else { 120_000 } }), "exploration"),
+            "C18" => (Box::new(C18Plan { seed, seeded: if quick { 3_000 } else { 150_000 } }), "exploration"),
+            "C17" => (
+                Box::new(C17Plan { seed, seeded_new: if quick { 1_500 } else { 60_000 }, seeded_crash: if quick { 20_000 } else { 1_000_000 } }),
+                "exploration",
+            ),
             "C19" => (Box::new(HexPlan { seed, seeded: if quick { 12_000 } else { 400_000 } }), "exploration"),
             _ => {
                 eprintln!("harness error: no check for property {property}");
